@@ -41,7 +41,10 @@ GARBAGE = ["this is not fortran at all", "end", "contains", "end module nothing"
            "subroutine s(\n", "))))((((", "x = 'unterminated", "&", "  & continued from nowhere", "interface\ncontains",
            "type t\nend module t", "\x00\x01\x02", "module m\ncontains\ncontains\nend module", "function f(\nend",
            "submodule (a) b\nend program", "block data\nend block", "module m\n integer :: x\n", "! only a comment",
-           "", "   \n\n", "#ifdef X\nmodule m\n#endif", "enum, bind(c)\n enumerator :: a = 'x'\nend enum"]
+           "", "   \n\n", "#ifdef X\nmodule m\n#endif", "enum, bind(c)\n enumerator :: a = 'x'\nend enum",
+           # diagnostics that quote the offending line: brackets must come out as they are
+           "  & \"[/s]\" continued from nowhere", "module m\n real :: per_second = \"[/s]\" !> inline predoc\nend module m",
+           "x = '[bold]' &\n\n& '[/bold]'\n&"]
 
 
 class Timeout(Exception):
@@ -178,12 +181,15 @@ def run(chk):
                                   "impl_detail": res[1] if res[0] != "ok" else None, "text": text}, False)
         # B. isolation: the other files' trees and identifiers with and without the bad file, every position
         nproj = 40 if quick else 400
+        special = [g + "\n" for g in GARBAGE[-3:]]     # diagnostics that quote a line with markup-like brackets
         for pi in range(nproj):
             nvalid = rng.choice([2, 3])
             valids = gen_valid_files(rng, nvalid)
             # make a name clash likely: the bad file is derived from one of the valid files (stale copy)
             src = rng.choice(valids)
             kind, btext, _ = rng.choice(bad_variants(rng, src))
+            if pi < len(special):
+                kind, btext = "quoted-brackets", special[pi]
             names = [v[0]["name"] for v in valids]
             with F.Work({f"src/{v[0]['name']}": v[2] for v in valids}) as w:
                 try:
@@ -198,7 +204,8 @@ def run(chk):
                 prev_bad = None
                 for pos in range(nvalid + 1):
                     # FORD parses files in sorted order: the name places the bad file before / between / after
-                    bad_name = "a_bad.f90" if pos == 0 else f"v{pos - 1}z_bad.f90"
+                    deco = rng.choice(["", "", "[old]", "[v2]", " (copy)", "[b]x"])
+                    bad_name = f"a_bad{deco}.f90" if pos == 0 else f"v{pos - 1}z_bad{deco}.f90"
                     if prev_bad:
                         (w.root / "src" / prev_bad).unlink()
                     w.write(f"src/{bad_name}", btext)
@@ -223,7 +230,7 @@ def run(chk):
                         if bad_name in files_now:
                             chk.violation("failing-input", {"what": "a file that cannot be parsed on its own was "
                                           "registered in the project", "bad": btext}, True)
-                        if bad_name not in log and "Error parsing" not in log:
+                        if bad_name not in log:
                             chk.violation("failing-input", {"what": "rejected file not named in the diagnostic",
                                                             "bad": btext, "log": log[-500:]}, True)
                         if snap != base:
